@@ -223,8 +223,6 @@ def run(ck: core.Check):
     stats = collections.Counter()
     em_depth = collections.Counter()
     lean_reqs: list[dict] = []
-    bridge_reqs: list[dict] = []
-    bridge_meta: list[tuple] = []
     lean_meta: list[tuple] = []
     extraction_broken = 0
     notes = collections.Counter()
@@ -317,9 +315,6 @@ def run(ck: core.Check):
             lean_reqs.append(L.lean_request(prog_c, em_c, vals, sd, [idmap[a] for a in want_args],
                                             [[idmap[r[0]], r[1]] for r in want_res]))
             lean_meta.append((pi, style, rseed, origin, "creation-order"))
-            if style == styles[0]:  # C04's Builder model on the same program: its emission must be the real one
-                bridge_reqs.append({"bridge": L.to_buildalg(prog, want_args, want_res)})
-                bridge_meta.append((pi, style, rseed, origin, L.normal_emission(prog, em)))
             if stats["builds"] % 4 == 0:  # and in the abstract numbering: same values (renaming theorem)
                 lean_reqs.append(L.lean_request(prog, em, vals, sd, want_args, want_res))
                 lean_meta.append((pi, style, rseed, origin, "abstract-order"))
@@ -364,35 +359,6 @@ def run(ck: core.Check):
                               f"program #{meta[0]} style={meta[1]} rseed={meta[2]}")
         prev = (o, meta)
 
-    # --- bridge: C04's algorithm model (BuildAlg.build) on the same programs, its emission parsed into
-    #     an EGraph, judged by validG, and compared with the real emission
-    try:
-        bouts = ck.driver().ask_many("C01", bridge_reqs)
-    except Exception as e:  # noqa: BLE001
-        ck.broken("correspondence", "C01 bridge driver", str(e)[:300])
-        bouts = []
-    bm = collections.Counter()
-    for o, meta in zip(bouts, bridge_meta):
-        prog = programs[meta[0]][0]
-        tag = None
-        if "error" in o:
-            tag = "driver-error"
-        elif not (o["wf"] and o["built"]):
-            tag = "algorithm-model-does-not-build"
-        elif not o["struct_ok"]:
-            tag = "structOk-false"
-        elif not o["valid"]:
-            tag = "validG-rejects-algorithm-model-emission"
-        elif L.normal_emission(prog, o["emit"], attr_order=True) != meta[4]:
-            tag = "algorithm-model-emission-differs-from-real-emission"
-        if tag:
-            bm[tag] += 1
-            if bm[tag] <= 2:
-                ck.broken("correspondence", f"C01/C04 bridge: {tag}",
-                          f"program #{meta[0]} ({meta[3]}) style={meta[1]} rseed={meta[2]} answer={json.dumps(o)[:300]} real={json.dumps(meta[4])[:300]}")
-        else:
-            stats["bridge_ok"] += 1
-
     # --- the listed finding, replayed on every run
     try:
         kf = run_case(LOOP_SCALAR_COND, "lazy", 1, [L.random_binding(LOOP_SCALAR_COND, random.Random(5))])
@@ -425,8 +391,6 @@ def run(ck: core.Check):
             "evalG_vs_denoteG_compared": stats["eval_vs_denote_compared"],
             "creation_order_vs_abstract_numbering_compared": stats["numberings_compared"],
             "translation_validation_mismatches": dict(mism),
-            "bridge_algorithm_model_emissions_equal_real_and_valid": stats["bridge_ok"],
-            "bridge_mismatches": dict(bm),
             "extraction_problems": extraction_broken,
             "bindings_compared_with_numpy": stats["bindings_compared"],
             "bindings_skipped_overflow": stats["bindings_skipped_overflow"],
